@@ -278,6 +278,12 @@ func (e *Exec) evalBinary(x *ast.BinaryExpr, st *State, ctx *Ctx) string {
 
 // nopanic records a "this cannot panic here" side obligation (only in sweep mode).
 func (e *Exec) nopanic(st *State, pos token.Pos, kind, cond, what string) {
+	if kind == "nil-deref" {
+		// API misuse (nil *Document, *Parser, ...) is outside the input quantifier of C08: assumed, and listed
+		e.note("pointers that are dereferenced are assumed non-nil (nil receivers/arguments are API misuse, not input)")
+		st.assume(cond)
+		return
+	}
 	if !e.sweep {
 		// outside the sweep the condition is still assumed, as execution continues only if it held
 		st.assume(cond)
@@ -516,7 +522,8 @@ func (e *Exec) evalAlloc(cl *ast.CompositeLit, st *State, ctx *Ctx) string {
 		st.assume("(not (= " + r + " " + o + "))")
 	}
 	st.allocs = append(st.allocs, r)
-	st.assume("(>= " + r + " allocTop)")
+	st.assume("(= " + r + " " + st.top + ")")
+	st.top = "(+ " + r + " 1)"
 	given := map[string]ast.Expr{}
 	for i, el := range cl.Elts {
 		if kv, ok := el.(*ast.KeyValueExpr); ok {
